@@ -252,7 +252,11 @@ class AttributeAssignment:
         :return: A Comparator or an Exists expression representing the condition.
         """
         if self.attr._is_iterable_ and not self.is_iterable_value:
-            condition = contains(self.attr, self.assigned_variable)
+            if self.attr._wrapped_field_.is_optional:
+                # a collection that may be missing: it has no members then
+                condition = flatten(self.attr) == self.assigned_variable
+            else:
+                condition = contains(self.attr, self.assigned_variable)
         elif not self.attr._is_iterable_ and self.is_iterable_value:
             condition = in_(self.attr, self.assigned_variable)
         elif (
